@@ -251,11 +251,21 @@ Definition generate_nsp (host_lt_312 : bool) (root : symtab) : res nsp :=
   end.
 
 (* ---------- names of the per-namespace helpers ---------- *)
+(* an injective, underscore-free numeral: binary, least significant bit first ("0" for zero) *)
+Fixpoint pos_code (p : positive) : string :=
+  match p with
+  | xH => "1"
+  | xO q => String "0" (pos_code q)
+  | xI q => String "1" (pos_code q)
+  end.
+Definition ncode (n : nat) : string :=
+  match N.of_nat n with N0 => "0" | Npos p => pos_code p end.
+
 Definition ol (kind : string) (suffix : string) : ident := ("__ol_" ++ kind ++ "_" ++ suffix)%string.
-Definition nonlocal_dict (i : nat) : expr := Name (ol "nonlocal" (nat2s i)).
-Definition class_dict (i : nat) : expr := Name (ol "classnsp" (nat2s i)).
-Definition retv_name (i : nat) : ident := ol "retv" (nat2s i).
-Definition ret_flag (i : nat) : ident := ol "ret" (nat2s i).
+Definition nonlocal_dict (i : nat) : expr := Name (ol "nonlocal" (ncode i)).
+Definition class_dict (i : nat) : expr := Name (ol "classnsp" (ncode i)).
+Definition retv_name (i : nat) : ident := ol "retv" (ncode i).
+Definition ret_flag (i : nat) : ident := ol "ret" (ncode i).
 
 Definition cstr (s : string) : expr := Constant (CStr (s2t s)).
 Definition call (f : expr) (args : list expr) : expr := Call f args [].
